@@ -330,6 +330,14 @@ Definition keys_ok (d : cdesc) : bool :=
   | UChildrenKwargs => keys_accepted d
   end.
 
+Fixpoint nodupb (l : list string) : bool :=
+  match l with [] => true | x :: r => negb (existsb (String.eqb x) r) && nodupb r end.
+
+(* the table-level condition under which the call cls( **aux_data ) binds for ALL field values *)
+Definition call_binds_check (d : cdesc) : bool :=
+  match c_unflatten d with UKwargs => true | UChildrenKwargs => false end
+  && keys_accepted d && required_given d && nodupb (map fst (c_aux d)).
+
 (* classes that define the tree_flatten/tree_unflatten pair but are not registered must stay
    unregistered (ConfigState: its pair is lossy) - recorded by the translator as c_registered=false
    entries of a separate list *)
@@ -498,3 +506,34 @@ Definition instance_ok (t : ftable) (cls : string) (facts : list (string * bool)
                      | Some (st, k) => implb (snd fb) (may_be_traced st k)
                      end) facts
   end.
+
+(* ---------------------------------------------------------------------------------------------- *)
+(* The registered classes as they are in the tree the proofs were written against (pinned tree +
+   fixes/C18-landscape-unflatten.diff): a copy of FuraxGen.PytreeReg.gen_table.  Lemmas/PytreeRegL.v
+   proves roundtrip_holds pinned_table for all constructor arguments; Props/C18.v checks on every run
+   that the regenerated table still equals this one (an unknown class, a changed constructor, a
+   changed aux key or a changed tree_unflatten fails closed). *)
+Open Scope Z_scope.
+Definition pinned_table : list cdesc := [
+  mkC "Landscape" true true "Landscape" [mkP "shape" POK None; mkP "dtype" POK (Some (VObj 1 None))] 
+      [SAttr "shape" (EName "shape"); SAttr "dtype" (EName "dtype")]
+      "Landscape" [] [("shape", "shape"); ("dtype", "dtype")] "Landscape" UKwargs;
+  mkC "StokesLandscape" true true "StokesLandscape" [mkP "shape" POK (Some VNone); mkP "stokes" POK (Some (VStr "IQU")); mkP "dtype" POK (Some (VObj 1 None)); mkP "pixel_shape" POK (Some VNone)] 
+      [SRaiseIf (EAnd (EIsNone (EName "shape")) (EIsNone (EName "pixel_shape"))) TypeError; SRaiseIf (EAnd (ENot (EIsNone (EName "shape"))) (ENot (EIsNone (EName "pixel_shape")))) TypeError; SLocal "shape" (EIfExp (EIsNone (EName "pixel_shape")) (EName "shape") (ERev (EName "pixel_shape"))); SAssert (ENot (EIsNone (EName "shape"))); SSuper "Landscape" [(EName "shape"); (EName "dtype")] []; SAttr "stokes" (EName "stokes"); SAttr "pixel_shape" (ERev (EName "shape"))]
+      "StokesLandscape" [] [("shape", "shape"); ("dtype", "dtype"); ("stokes", "stokes")] "Landscape" UKwargs;
+  mkC "HealpixLandscape" true false "HealpixLandscape" [mkP "nside" POK None; mkP "stokes" POK (Some (VStr "IQU")); mkP "dtype" POK (Some (VObj 1 None))] 
+      [SLocal "shape" (ETuple [(EMul (EConst (VInt (12))) (EPow (EName "nside") (EConst (VInt (2)))))]); SSuper "StokesLandscape" [(EName "shape"); (EName "stokes"); (EName "dtype")] []; SAttr "nside" (EName "nside")]
+      "HealpixLandscape" [] [("dtype", "dtype"); ("stokes", "stokes"); ("nside", "nside")] "Landscape" UKwargs;
+  mkC "FrequencyLandscape" true false "FrequencyLandscape" [mkP "nside" POK None; mkP "frequencies" POK None; mkP "stokes" POK (Some (VStr "IQU")); mkP "dtype" POK (Some (VObj 1 None))] 
+      [SSuper "HealpixLandscape" [(EName "nside"); (EName "stokes"); (EName "dtype")] []; SAttr "frequencies" (EName "frequencies"); SAttr "shape" (ETuple [(ELen (EName "frequencies")); (EMul (EConst (VInt (12))) (EPow (EName "nside") (EConst (VInt (2)))))])]
+      "FrequencyLandscape" [] [("dtype", "dtype"); ("stokes", "stokes"); ("nside", "nside"); ("frequencies", "frequencies")] "Landscape" UKwargs
+].
+Definition pinned_unregistered : list string := ["ConfigState"].
+
+(* HealpixLandscape as it was BEFORE fixes/C18-landscape-unflatten.diff (finding D4): tree_flatten
+   also put the derived attribute `shape` into the aux data, which the constructor does not accept.
+   Kept to document the finding (Props/C18.v: d4_before_fix). *)
+Definition prefix_healpix : cdesc :=
+  mkC "HealpixLandscape" true false "HealpixLandscape" [mkP "nside" POK None; mkP "stokes" POK (Some (VStr "IQU")); mkP "dtype" POK (Some (VObj 1 None))]
+      [SLocal "shape" (ETuple [(EMul (EConst (VInt (12))) (EPow (EName "nside") (EConst (VInt (2)))))]); SSuper "StokesLandscape" [(EName "shape"); (EName "stokes"); (EName "dtype")] []; SAttr "nside" (EName "nside")]
+      "HealpixLandscape" [] [("shape", "shape"); ("dtype", "dtype"); ("stokes", "stokes"); ("nside", "nside")] "Landscape" UKwargs.
